@@ -181,6 +181,7 @@ def run_check(cid, tier, only=None, verbose=True):
                validated=0, replayed=0, cuts=0, aborted=0)
     functions, shims, stubs, assumptions, samples, per_inst = {}, set(), set(), set(), [], []
     twins_ok = twins = 0
+    slow = []
     for j in jobs:
         it = insts[j.idx]
         r = j.result
@@ -188,6 +189,8 @@ def run_check(cid, tier, only=None, verbose=True):
                     unsat=r.get('unsat', 0), sat=r.get('sat', 0), unknown=r.get('unknown', 0),
                     wall=r.get('wall'), solver_s=r.get('solver_time'), expect=it.expect)
         per_inst.append(info)
+        for (lab, dt, verdict) in r.get('slow_goals', []):
+            slow.append((dt, it.name, lab, verdict))
         reproduced = []
         for (jj, kind, k, rj) in rjobs:
             if jj is not j:
@@ -281,6 +284,7 @@ def run_check(cid, tier, only=None, verbose=True):
             solver_time_s=round(tot['solver_time'], 2), paths_cut=tot['cuts'], paths_aborted=tot['aborted'],
             models_replayed=tot['replayed'], twins=dict(run=twins, violated_as_expected=twins_ok),
             instances=per_inst, outside_claim=getattr(mod, 'OUTSIDE', []),
+            slowest_obligations=[dict(solver_s=a, instance=b, obligation=c, verdict=d) for a, b, c, d in sorted(slow, reverse=True)[:8]],
             status=status, problems=problems[:10],
         ),
         assumptions=sorted(assumptions) + list(getattr(mod, 'ASSUMPTIONS', [])),
@@ -295,6 +299,9 @@ def run_check(cid, tier, only=None, verbose=True):
                   f"sat={i['sat']} unk={i['unknown']} wall={i['wall']} solver={i['solver_s']}")
         print(f'{cid} {tier}: {status}; obligations {tot["unsat"]}/{tot["goals"]} discharged, paths {tot["paths"]}, '
               f'validated {tot["validated"]}, twins {twins_ok}/{twins}, wall {wall:.1f}s')
+    if os.getenv('VF_SLOW'):
+        for a, b, c, d in sorted(slow, reverse=True)[:12]:
+            print(f'  SLOW {a:7.2f}s {d:<8} {b} :: {c}')
     for sig, line in known_hits:
         print(f'KNOWN-FINDING: property={cid} {sig} {line}')
     for p in problems:
